@@ -86,6 +86,9 @@ def prod(
         )
     if isinstance(axis, numpy.integer):
         axis = int(axis)
+    if not a.ndim and axis in (0, -1):
+        # numpy folds a single element over "its" axis as well
+        axis = None
     # multiply in the requested type, or else the one numpy.prod accumulates in
     if dtype is None:
         dtype = numpy.prod(numpy.empty(0, dtype=a.dtype)).dtype
